@@ -108,6 +108,9 @@ class SystemWZ3(Inference):
             if contra_solver.check() == unsat:
                 return True
 
+            # worlds falsifying a conditional of the infinity layer are infeasible
+            for c in self.epistemic_state["partition"][-1]:
+                opt.add(c.make_not_A_or_B())
             result = self._rec_inference(
                 opt, len(self.epistemic_state["partition"]) - 2, query_z3
             )
